@@ -134,11 +134,13 @@ reg(
     "Oracles: brute force over all K^T state sequences; dense joint Gaussian conditioning in float64. Non-trivial: T >= 2 and "
     "(sparse or K != M) for HMMs, T >= 2 and d_obs != d_state for LG. Long-sequence HMM cases (T in {80, 200, 500}, or 12-30 "
     "steps that repeatedly observe a symbol of emission probability ~1e-9, so that the unnormalised forward messages leave the "
-    "float32 range) are compared with a float64 scaled forward recursion that is itself checked against brute force on a prefix. "
+    "float32 range) are compared with a float64 scaled forward recursion that is itself checked against brute force on a prefix; "
+    "long-horizon linear-Gaussian cases (T in {40, 120}, contractive dynamics) with a float64 Kalman filter / RTS smoother that is "
+    "itself checked against dense conditioning on a prefix. "
     "Distinct = hash of the case.",
     quick={"shards": 16, "timeout_s": 3000, "n_cases": 24, "n1": 4000, "stat_every": 3,
            "required_classes": ["C20.hmm", "C20.lg", "C20.hmm_sparse", "C20.hmm_T1", "C20.lg_nonsquare", "C20.lg_T1", "C20.lg_square", "C20.hmm_long",
-                                "C20.hmm_long_rare_symbol", "C20.hmm_long_T>=80"]},
+                                "C20.hmm_long_rare_symbol", "C20.hmm_long_T>=80", "C20.lg_long"]},
     thorough={"shards": 16, "timeout_s": 3 * 3600, "n_cases": 200, "n1": 20000, "stat_every": 2,
               "required_classes": ["C20.hmm", "C20.lg", "C20.hmm_sparse", "C20.hmm_T1", "C20.lg_nonsquare", "C20.lg_T1"]},
 )
